@@ -392,6 +392,100 @@ theorem reinsert_spec : ∀ (fixed : List (Option ℕ)) (h : Hap), h.length = nH
           | some a => rfl
           | none => simp [hetIndex]
 
+/-! ### restriction to the sampled columns and its round trip with re-insertion
+
+`restrictHap` models `x[..., heterozygous]` (the columns handed to the sampler).  Re-insertion is a right inverse
+of the restriction, hence injective: two different sampled haplotypes never collapse, and the multiplicity (dosage)
+of every haplotype in a genotype is the same before and after re-insertion. -/
+
+theorem restrict_reinsert : ∀ (fixed : List (Option ℕ)) (h : Hap), h.length = nHet fixed →
+    restrictHap fixed (reinsertHap fixed h) = h := by
+  intro fixed
+  induction fixed with
+  | nil => intro h hl; simp [nHet] at hl; simp [restrictHap, hl]
+  | cons f fs ih =>
+    intro h hl
+    cases f with
+    | some a =>
+      have hl' : h.length = nHet fs := by simpa [nHet] using hl
+      simp [reinsertHap, restrictHap, ih h hl']
+    | none =>
+      cases h with
+      | nil => simp [nHet] at hl
+      | cons x t =>
+        have hl' : t.length = nHet fs := by simpa [nHet] using hl
+        simp [reinsertHap, restrictHap, ih t hl']
+
+theorem reinsertHap_injective (fixed : List (Option ℕ)) (h h' : Hap)
+    (hl : h.length = nHet fixed) (hl' : h'.length = nHet fixed)
+    (e : reinsertHap fixed h = reinsertHap fixed h') : h = h' := by
+  rw [← restrict_reinsert fixed h hl, ← restrict_reinsert fixed h' hl', e]
+
+theorem reinsert_count (fixed : List (Option ℕ)) (g : Genotype) (h : Hap)
+    (hg : ∀ x ∈ g, x.length = nHet fixed) (hl : h.length = nHet fixed) :
+    (reinsert fixed g).count (reinsertHap fixed h) = g.count h := by
+  unfold reinsert
+  induction g with
+  | nil => simp
+  | cons x t ih =>
+    have hx := hg x (by simp)
+    have ih' := ih (fun y hy => hg y (by simp [hy]))
+    simp only [List.map_cons, List.count_cons, ih']
+    congr 1
+    by_cases e : x = h
+    · simp [e]
+    · have : reinsertHap fixed x ≠ reinsertHap fixed h :=
+        fun e' => e (reinsertHap_injective fixed x h hx hl e')
+      simp [e, this]
+
+theorem restrict_length : ∀ (fixed : List (Option ℕ)) (full : Hap), full.length = fixed.length →
+    (restrictHap fixed full).length = nHet fixed := by
+  intro fixed
+  induction fixed with
+  | nil => intro full _; simp [restrictHap, nHet]
+  | cons f fs ih =>
+    intro full hl
+    cases full with
+    | nil => simp at hl
+    | cons x t =>
+      have := ih t (by simpa using hl)
+      cases f <;> simp [restrictHap, nHet, this]
+
+/-- a full-length haplotype is recovered from its sampled columns exactly when it carries the fixed allele at every fixed site -/
+theorem reinsert_restrict_iff : ∀ (fixed : List (Option ℕ)) (full : Hap), full.length = fixed.length →
+    (reinsertHap fixed (restrictHap fixed full) = full ↔
+      ∀ j (hj : j < fixed.length) a, fixed[j] = some a → full.getD j 0 = a) := by
+  intro fixed
+  induction fixed with
+  | nil => intro full hl; simp at hl; simp [hl, reinsertHap]
+  | cons f fs ih =>
+    intro full hl
+    cases full with
+    | nil => simp at hl
+    | cons x t =>
+      have iht := ih t (by simpa using hl)
+      cases f with
+      | some a =>
+        simp only [restrictHap, reinsertHap, List.cons.injEq, iht]
+        constructor
+        · rintro ⟨rfl, h2⟩ j hj b hb
+          cases j with
+          | zero => simpa using hb
+          | succ j => simpa using h2 j (by simpa using hj) b (by simpa using hb)
+        · intro h
+          refine ⟨by simpa using (h 0 (by simp) a (by simp)).symm, ?_⟩
+          intro j hj b hb
+          simpa using h (j+1) (by simpa using hj) b (by simpa using hb)
+      | none =>
+        simp only [restrictHap, reinsertHap, List.cons.injEq, true_and, iht]
+        constructor
+        · intro h2 j hj b hb
+          cases j with
+          | zero => simp at hb
+          | succ j => simpa using h2 j (by simpa using hj) b (by simpa using hb)
+        · intro h j hj b hb
+          simpa using h (j+1) (by simpa using hj) b (by simpa using hb)
+
 /-! ### non-vacuity -/
 
 example : randomBreaks 6 [2, 0, 1] = some [(0, 1), (1, 3), (3, 4), (4, 6)] ∧
@@ -399,4 +493,8 @@ example : randomBreaks 6 [2, 0, 1] = some [(0, 1), (1, 3), (3, 4), (4, 6)] ∧
     reinsert [none, some 1, none, some 0] [[1, 0], [0, 1]] = [[1, 1, 0, 0], [0, 1, 1, 0]] := by
   decide +kernel
 
+example : restrictHap [none, some 1, none, some 0] [1, 1, 0, 0] = [1, 0] ∧
+    restrict [none, some 1, none, some 0] (reinsert [none, some 1, none, some 0] [[1, 0], [0, 1]]) = [[1, 0], [0, 1]] ∧
+    (reinsert [none, some 1] [[1], [1], [0]]).count [1, 1] = 2 := by
+  decide +kernel
 end MCHap.C15
